@@ -106,6 +106,7 @@ Proof.
   destruct ops as [|s r]; simpl; intro H; [constructor|].
   apply NoDup_filter. apply H. left. reflexivity.
 Qed.
+Print Assumptions sinter_l_NoDup.
 
 Theorem sunion_l_NoDup ops : NoDup (sunion_l ops).
 Proof. unfold sunion_l. apply dedup_bytes_NoDup. Qed.
@@ -115,6 +116,7 @@ Proof.
   destruct ops as [|s r]; simpl; intro H; [constructor|].
   apply NoDup_filter. apply H. left. reflexivity.
 Qed.
+Print Assumptions sdiff_l_NoDup.
 
 Theorem setop_fn_NoDup o ops : (forall s, In s ops -> NoDup s) -> NoDup (setop_fn o ops).
 Proof.
@@ -763,6 +765,7 @@ Proof.
   intros Hne Hl. apply get_set_missing in Hl. unfold cmd_srem.
   destruct ms as [|m0 ms0]; [congruence|]. rewrite Hl. reflexivity.
 Qed.
+Print Assumptions srem_missing.
 
 (* --- SISMEMBER / SMISMEMBER / SCARD / SMEMBERS --- *)
 Theorem set_reads_present now d k s exp :
@@ -791,6 +794,7 @@ Proof.
   unfold cmd_sismember, cmd_smismember, cmd_scard, cmd_smembers. rewrite Hl.
   repeat split. intros ms Hne. destruct ms as [|m0 ms0]; [congruence|]. reflexivity.
 Qed.
+Print Assumptions set_reads_missing.
 
 (* --- SMOVE --- *)
 Theorem smove_same now d k m s exp :
@@ -810,6 +814,7 @@ Proof.
   intros Hs Hd Hm. unfold cmd_smove. rewrite Hs, Hd.
   apply mem_bytes_nIn in Hm. rewrite Hm. reflexivity.
 Qed.
+Print Assumptions smove_absent.
 
 Theorem smove_missing_src now d src dst m :
   lookup now d src = None -> cmd_smove now d [src; dst; m] = (d, RInt 0).
@@ -1033,4 +1038,198 @@ Example set_error_ex :
   cmd_setop_store OpInter 50 d [s2b "a"] = (d, argerr) /\
   cmd_sintercard 50 d [s2b "3"; s2b "a"; s2b "b"] =
     (d, err "ERR Number of keys can't be greater than number of args").
+Proof. vm_compute. repeat split; reflexivity. Qed.
+
+(* ------------------------------------------------------------------ *)
+(* 8. invariant: every stored set is non-empty and duplicate free, and  *)
+(*    every writing set command keeps it so (for arbitrary arguments)   *)
+(* ------------------------------------------------------------------ *)
+
+Definition set_wf (d : db) : Prop :=
+  forall k e s, aget (d_map d) k = Some e -> e_val e = VSet s -> s <> [] /\ NoDup s.
+
+Lemma lookup_aget now d k e : lookup now d k = Some e -> aget (d_map d) k = Some e.
+Proof.
+  unfold lookup. destruct (aget (d_map d) k) as [e0|]; [|discriminate].
+  destruct (expired now e0); [discriminate|]. exact (fun H => H).
+Qed.
+
+Lemma set_wf_get now d k cur : set_wf d -> get_set now d k = Some cur -> NoDup (cur_set cur).
+Proof.
+  intros Hwf Hg. destruct cur as [[s e]|]; simpl; [|constructor].
+  apply get_set_some in Hg. destruct Hg as [e0 [Hl [Hv _]]].
+  apply lookup_aget in Hl. exact (proj2 (Hwf k e0 s Hl Hv)).
+Qed.
+
+Lemma set_wf_members now d k : set_wf d -> NoDup (members now d k).
+Proof.
+  intro Hwf. unfold members. destruct (lookup now d k) as [e|] eqn:El; [|constructor].
+  destruct (e_val e) as [b|l|h|s] eqn:Ev; try constructor.
+  apply lookup_aget in El. exact (proj2 (Hwf k e s El Ev)).
+Qed.
+
+Lemma set_wf_del d k : set_wf d -> set_wf (del d k).
+Proof.
+  intros Hwf k' e' s' Ha Hv. unfold del in Ha. simpl in Ha.
+  destruct (bytes_eq_dec k' k) as [E|E].
+  - subst k'. rewrite aget_adel_same in Ha. discriminate.
+  - rewrite aget_adel_other in Ha by exact E. exact (Hwf k' e' s' Ha Hv).
+Qed.
+
+Lemma set_wf_put d k s exp : set_wf d -> s <> [] -> NoDup s -> set_wf (put d k (VSet s) exp).
+Proof.
+  intros Hwf Hne Hnd k' e' s' Ha Hv. unfold put in Ha. simpl in Ha.
+  destruct (bytes_eq_dec k' k) as [E|E].
+  - subst k'. rewrite aget_aset_same in Ha. inversion Ha; subst e'. simpl in Hv.
+    inversion Hv; subst s'. split; assumption.
+  - rewrite aget_aset_other in Ha by exact E. exact (Hwf k' e' s' Ha Hv).
+Qed.
+
+Lemma set_wf_put_set d k s exp : set_wf d -> NoDup s -> set_wf (put_set d k s exp).
+Proof.
+  intros Hwf Hnd. unfold put_set, put_or_del. destruct s as [|x s]; simpl.
+  - apply set_wf_del. exact Hwf.
+  - apply set_wf_put; [exact Hwf | discriminate | exact Hnd].
+Qed.
+
+Theorem set_wf_preserved now d args :
+  set_wf d ->
+  set_wf (fst (cmd_sadd now d args)) /\
+  set_wf (fst (cmd_srem now d args)) /\
+  set_wf (fst (cmd_smove now d args)) /\
+  (forall o, set_wf (fst (cmd_setop_store o now d args))).
+Proof.
+  intro Hwf. split; [|split; [|split]].
+  - unfold cmd_sadd. destruct args as [|k [|m0 ms0]]; try exact Hwf.
+    destruct (get_set now d k) as [cur|] eqn:Hg; [|exact Hwf].
+    pose proof (set_wf_get now d k cur Hwf Hg) as Hnd.
+    destruct cur as [[s e]|]; cbn [cur_set] in *;
+      destruct (sadd_all _ (m0 :: ms0)) as [s1 n1] eqn:E; cbn [fst];
+      (destruct (n1 =? 0); [exact Hwf|]);
+      apply set_wf_put_set; try exact Hwf;
+      destruct (sadd_all_spec _ _ _ _ E) as [_ [Hn _]]; apply Hn; exact Hnd.
+  - unfold cmd_srem. destruct args as [|k [|m0 ms0]]; try exact Hwf.
+    destruct (get_set now d k) as [[[s e]|]|] eqn:Hg; try exact Hwf.
+    pose proof (set_wf_get now d k _ Hwf Hg) as Hnd. cbn [cur_set] in Hnd.
+    change (fun (acc : list bytes * Z) (m : bytes) =>
+              let '(s0, n) := acc in if mem_bytes m s0 then (remove_bytes m s0, n + 1) else (s0, n))
+      with srem_step.
+    destruct (fold_left srem_step (m0 :: ms0) (s, 0)) as [s1 n1] eqn:E. cbn [fst].
+    destruct (n1 =? 0); [exact Hwf|]. apply set_wf_put_set; [exact Hwf|].
+    destruct (srem_fold_spec _ _ _ _ _ E) as [H1 _]. subst s1. apply NoDup_filter. exact Hnd.
+  - unfold cmd_smove. destruct args as [|src [|dst [|m [|x r]]]]; try exact Hwf.
+    destruct (get_set now d src) as [[[s e]|]|] eqn:Hs; try exact Hwf.
+    destruct (get_set now d dst) as [dcur|] eqn:Hd; [|exact Hwf].
+    destruct (negb (mem_bytes m s)); [exact Hwf|].
+    destruct (bytes_eqb src dst); [exact Hwf|]. cbv zeta.
+    pose proof (set_wf_get now d src _ Hwf Hs) as Hnd1. cbn [cur_set] in Hnd1.
+    pose proof (set_wf_get now d dst _ Hwf Hd) as Hnd2.
+    assert (set_wf (put_set d src (remove_bytes m s) e)) as Hwf1.
+    { apply set_wf_put_set; [exact Hwf | apply remove_bytes_NoDup; exact Hnd1]. }
+    destruct dcur as [[s2 e2]|]; cbn [cur_set fst] in *.
+    + destruct (mem_bytes m s2) eqn:Em; [exact Hwf1|].
+      apply set_wf_put_set; [exact Hwf1|]. apply mem_bytes_nIn in Em.
+      clear - Hnd2 Em. induction s2 as [|y l IHl]; simpl.
+      * constructor; [intros []|constructor].
+      * inversion Hnd2 as [|? ? Hnin Hnd']; subst. constructor.
+        -- rewrite in_app_iff. simpl. intros [Hy|[Hy|[]]]; [contradiction|].
+           apply Em. left. symmetry. exact Hy.
+        -- apply IHl; [exact Hnd'|]. intro Hc. apply Em. right. exact Hc.
+    + simpl. apply set_wf_put_set; [exact Hwf1|]. constructor; [intros []|constructor].
+  - intro o. unfold cmd_setop_store. destruct args as [|dst [|k0 ks]]; try exact Hwf.
+    destruct (setop_operands o now d (k0 :: ks)) as [ops|] eqn:Eo; [|exact Hwf].
+    cbv zeta. cbn [fst].
+    destruct (setop_fn o ops) as [|x r] eqn:Er.
+    + destruct (aget (d_map d) dst); [apply set_wf_del|]; exact Hwf.
+    + apply set_wf_put; [exact Hwf | discriminate|]. rewrite <- Er.
+      apply setop_fn_NoDup. intros s Hs.
+      (* every operand that is actually used is a stored set or [] *)
+      assert (Hall : forall ks' ops', set_operands now d ks' = Some ops' -> forall t, In t ops' -> NoDup t).
+      { intros ks' ops' Ho t Ht. apply set_operands_some in Ho. destruct Ho as [_ Ho]. subst ops'.
+        apply in_map_iff in Ht. destruct Ht as [k' [Hk' _]]. subst t. apply set_wf_members. exact Hwf. }
+      assert (Hall2 : forall ks' ops', set_operands_until_missing now d ks' = Some ops' ->
+                                       forall t, In t ops' -> NoDup t).
+      { intros ks' ops' Ho t Ht. apply until_missing_shape in Ho.
+        destruct Ho as [[Ho _]|[pre [k1 [post [_ [_ [_ Ho]]]]]]]; subst ops'.
+        - apply in_map_iff in Ht. destruct Ht as [k' [Hk' _]]. subst t. apply set_wf_members. exact Hwf.
+        - apply in_app_iff in Ht. destruct Ht as [Ht|[Ht|[]]].
+          + apply in_map_iff in Ht. destruct Ht as [k' [Hk' _]]. subst t. apply set_wf_members. exact Hwf.
+          + subst t. constructor. }
+      destruct o; unfold setop_operands in Eo.
+      * exact (Hall2 _ _ Eo s Hs).
+      * exact (Hall _ _ Eo s Hs).
+      * destruct (get_set now d k0) as [[[s0 e0]|]|].
+        -- exact (Hall _ _ Eo s Hs).
+        -- inversion Eo; subst ops. destruct Hs as [Hs|[]]. subst s. constructor.
+        -- exact (Hall _ _ Eo s Hs).
+Qed.
+Print Assumptions set_wf_preserved.
+
+Lemma set_wf_empty : set_wf empty_db.
+Proof. intros k e s Ha. discriminate. Qed.
+
+Corollary set_never_empty now d k s exp :
+  set_wf d -> get_set now d k = Some (Some (s, exp)) -> s <> [] /\ NoDup s.
+Proof.
+  intros Hwf Hg. apply get_set_some in Hg. destruct Hg as [e [Hl [Hv _]]].
+  apply lookup_aget in Hl. exact (Hwf k e s Hl Hv).
+Qed.
+Print Assumptions set_never_empty.
+
+(* under the invariant the results of the algebra are duplicate free, so the
+   reply length of the STORE forms is the cardinality of the mathematical result *)
+Corollary setop_result_NoDup o now d ks :
+  set_wf d -> NoDup (setop_fn o (map (members now d) ks)).
+Proof.
+  intro Hwf. apply setop_fn_NoDup. intros s Hs. apply in_map_iff in Hs.
+  destruct Hs as [k [Hk _]]. subst s. apply set_wf_members. exact Hwf.
+Qed.
+Print Assumptions setop_result_NoDup.
+
+(* ------------------------------------------------------------------ *)
+(* 9. wrong-typed operands: WRONGTYPE, or (only SINTER*/SDIFF*, when a  *)
+(*    missing key stopped the scan first) the empty result               *)
+(* ------------------------------------------------------------------ *)
+
+Theorem setop_wrong_reply o now d ks :
+  ks <> [] ->
+  (exists k, In k ks /\ wrong_set now d k) ->
+  cmd_setop o now d ks = (d, wrongtype) \/
+  (o <> OpUnion /\ cmd_setop o now d ks = (d, RArrU [])).
+Proof.
+  intros Hne Hw. apply set_operands_none in Hw.
+  unfold cmd_setop. destruct ks as [|k0 r0]; [congruence|].
+  destruct (setop_operands o now d (k0 :: r0)) as [ops'|] eqn:Eo; [|left; reflexivity].
+  destruct (setop_operands_hidden o now d _ ops' Hw Eo) as [He Ho].
+  right. split; [exact Ho|]. rewrite He. reflexivity.
+Qed.
+Print Assumptions setop_wrong_reply.
+
+Theorem setop_store_wrong o now d dst ks :
+  ks <> [] ->
+  (exists k, In k ks /\ wrong_set now d k) ->
+  let d' := fst (cmd_setop_store o now d (dst :: ks)) in
+  cmd_setop_store o now d (dst :: ks) = (d, wrongtype) \/
+  (o <> OpUnion /\ snd (cmd_setop_store o now d (dst :: ks)) = RInt 0 /\
+   lookup now d' dst = None /\ forall k', k' <> dst -> lookup now d' k' = lookup now d k').
+Proof.
+  intros Hne Hw d'. subst d'. apply set_operands_none in Hw.
+  unfold cmd_setop_store. destruct ks as [|k0 r0]; [congruence|].
+  destruct (setop_operands o now d (k0 :: r0)) as [ops'|] eqn:Eo; [|left; reflexivity].
+  destruct (setop_operands_hidden o now d _ ops' Hw Eo) as [He Ho].
+  right. split; [exact Ho|]. cbv zeta. rewrite He. cbn [fst snd]. split; [reflexivity|].
+  destruct (aget (d_map d) dst) eqn:Ea.
+  - split; [apply lookup_del_same|]. intros k' Hk'. apply lookup_del_other. exact Hk'.
+  - split; [unfold lookup; rewrite Ea; reflexivity|]. reflexivity.
+Qed.
+Print Assumptions setop_store_wrong.
+
+(* the emulator's short cut: a missing key in front hides a later wrong-typed key *)
+Example hidden_wrongtype_ex :
+  cmd_setop OpDiff 50 ex_sets [s2b "nokey"; s2b "str"] = (ex_sets, RArrU []) /\
+  cmd_setop OpDiff 50 ex_sets [s2b "a"; s2b "nokey"; s2b "str"] = (ex_sets, wrongtype) /\
+  cmd_setop OpInter 50 ex_sets [s2b "nokey"; s2b "str"] = (ex_sets, RArrU []) /\
+  cmd_setop OpUnion 50 ex_sets [s2b "nokey"; s2b "str"] = (ex_sets, wrongtype) /\
+  snd (cmd_setop_store OpInter 50 ex_sets [s2b "a"; s2b "nokey"; s2b "str"]) = RInt 0 /\
+  lookup 50 (fst (cmd_setop_store OpInter 50 ex_sets [s2b "a"; s2b "nokey"; s2b "str"])) (s2b "a") = None.
 Proof. vm_compute. repeat split; reflexivity. Qed.
